@@ -6,10 +6,10 @@ reg("C05", "differential testing on a complete basis of fields (Hypothesis-gener
     "Generated-input search: for each generated grid/coefficient case the matrix terms and the explicit chain are compared on the complete canonical basis of cell arrays (ghosts included), so each case decides the identity for every field; TVD identities against an independently reconstructed limited flux. Exploration over grids, spacings and sign patterns - no proof of absence.",
     TB, "DESIGN.md 3 C05")
 reg("C01", "generated-input search against a boundary-flux reference (complete basis of fields) + solver-level invariant",
-    "Operator level: volume-weighted column sums of every term matrix vs the oracle's boundary-face flux functional, for every basis field, on generated grids/coefficients (closed and open); solver level: domainIntegral over implicit/explicit steps of generated closed and open problems. Exploration, not proof.",
+    "Operator level: volume-weighted column sums of every term matrix vs the oracle's boundary-face flux functional, for every basis field, on generated grids/coefficients (closed and open); solver level: domainIntegral over implicit/explicit steps of generated closed and open problems, every periodic declaration enumerated (made at construction or afterwards). Exploration, not proof.",
     TB + "; SphericalGrid3D checked under the discretisation's measure (K1); periodic axes with equal end cells (K2), zero seam velocity for upwind (K7)", "DESIGN.md 3 C01")
 reg("C03", "generated-input search against an independent ghost-cell reference model + metamorphic scaling",
-    "Ghost layer, plot profile and boundary rows compared with an independent reference Robin/periodic relation after construction, edit+apply_BCs, solvePDE and solveExplicitPDE on generated BC combinations; invariance under scaling (a,b,c). Exploration.",
+    "Ghost layer, plot profile and boundary rows compared with an independent reference Robin/periodic relation after construction, edit+apply_BCs, solvePDE, re-assignment of the data c alone + second solve, and solveExplicitPDE on generated BC combinations; invariance under scaling (a,b,c). Exploration.",
     TB + "; only well-posed Robin coefficients generated; K2 residual on unequal-ended periodic axes attributed to the known finding", "DESIGN.md 3 C03")
 reg("C04", "differential testing: harness-assembled system and own solve vs solvePDE / solveMatrixPDE / recording external solver",
     "For generated term lists (kinds, signs, scalings, order) the harness accumulates the system itself and compares stored values, the system handed to an external solver, solveMatrixPDE, row residuals, interior-row contract of every builder, affinity in data; BCs edited after construction (all sides / one side, optionally after a first solve) and cache-less variable kinds (BCsTerm_precalc=False, result of solveExplicitPDE). Exploration.",
@@ -24,7 +24,7 @@ reg("C08", "metamorphic / differential testing between paired grids (lift, permu
     "A generated low-dimensional problem is solved on its grid and on the higher-dimensional grid with a redundant axis (9 embeddings + two-step lifts), or permuted / mirrored / cyclically shifted on Cartesian grids; solutions must correspond incl. boundary values; upwind/TVD problems also with an independent direction field (two-argument call forms). Exploration.",
     TB + "; shift asserted for diffusion/central only (K7)", "DESIGN.md 3 C08")
 reg("C10", "generated-input search against closed-form geometry (per cell)",
-    "dims, faces, centres, sizes incl. ghost sizes, both constructor forms, per-cell volumes, totals, label reachability against closed forms on generated faces (ratios to 1e4, partial angles, offset origin). Exploration; K1 reported as known finding.",
+    "dims, faces, centres, sizes incl. ghost sizes, both constructor forms, per-cell volumes, totals, coordinate and vector-component label reachability against closed forms on generated faces (ratios to 1e4, partial angles, offset origin). Exploration; K1 reported as known finding.",
     TB, "DESIGN.md 3 C10")
 reg("C11", "generated-input search against reference mean formulas + bounds/ordering/locality predicates + 1D/2D/3D differential",
     "All five means compared with reference formulas of the two adjacent cells, bounds, ordering, exactness on linear fields, donor rule, independence from edge ghosts, agreement of the 1D loop with the vectorised 2D/3D code incl. zeros. Exploration.",
@@ -33,7 +33,7 @@ reg("C12", "generated-input search with algebraic identities and derived bounds 
     "Residual identity per cell, steady state as fixed point for any dt/alpha, dt->inf and dt->0 bounds from the dense eliminated operator, explicit update and purity, implicit-explicit O(dt^2) bound and leading term, dt over 12 decades; the time loop reuses one solution variable, the same spatial term objects and one per-cell alpha variable updated in place. Exploration.",
     TB + "; dense inverse of the small eliminated operator (numpy.linalg) trusted", "DESIGN.md 3 C12")
 reg("C13", "bounded-exhaustive enumeration (names x singular rationals x powers of ten; all small integer fields) + Hypothesis floats, exact rational oracle",
-    "Limiter values against published closed forms in exact rational arithmetic; totality, psi(1)=1, TVD bounds, clipping, elementwise/shape behaviour, unknown-name fallback; TVD correction finite on ALL integer fields {-2..2}^(N+2), N<=3 (exhaustive) and generated 2-D/3-D fields.",
+    "Limiter values against published closed forms in exact rational arithmetic; totality, psi(1)=1, TVD bounds, clipping, elementwise/shape behaviour, unknown-name fallback, independence from an explicit eps argument; TVD correction finite on ALL integer fields {-2..2}^(N+2), N<=3 (exhaustive) and generated 2-D/3-D fields.",
     "Exact reference via fractions.Fraction; numpy trusted; |r|<=1e100", "DESIGN.md 3 C13")
 reg("C16", "bounded-exhaustive enumeration of the request matrix against an expected-outcome table from the docs + generated valid requests",
     "Complete enumeration of class x label x object x get/set, component labels, periodic-axis subsets x flag choice x every ordered pair of repeated requests on one variable, constructor arities, shape families, bad coefficient/term objects; generated valid constructor forms / term kinds on grids with N>=1 must not raise.",
@@ -45,7 +45,7 @@ reg("C09", "model-based stateful testing (Hypothesis RuleBasedStateMachine + gen
     "Edit/solve histories are executed on the real objects and on a dict-of-arrays model; after every solve a fresh variable built from the model runs the same solve and full arrays are compared; invariants after every step (visible state equals model, clean variables have reference ghost values and a fresh cached boundary term). All sequences of length <=3 (4) over a 14-letter alphabet and every single edit kind x face x grid class on a clean variable are enumerated; longer histories are sampled. K3 (attributed from the model only) reported as known finding.",
     TB + "; solves skipped while a BC face is degenerate; terms built from coefficient fields only", "DESIGN.md 3 C09")
 reg("C14", "generated expression trees evaluated against numpy (reference evaluation) with byte snapshots and cross-modification probes",
-    "Expression trees (depth<=3) over all operators and reflected operators, funceval/celleval/faceeval with 1..8 arguments, copy(): values bitwise equal to numpy, operands byte-identical before/after, result BCs equal to the left-most operand's but unshared, reference ghost layer, no shared memory, edits do not leak either way.",
+    "Expression trees (depth<=3) over all operators and reflected operators, funceval/celleval/faceeval with 1..8 arguments, copy() (also of variables with stale or explicitly given ghost cells): values bitwise equal to numpy, operands byte-identical before/after, result BCs equal to the left-most operand's but unshared, reference ghost layer, no shared memory, edits do not leak either way.",
     TB, "DESIGN.md 3 C14")
 reg("C15", "generated-input search with byte snapshots of every input before/after each public builder/solver, bit-identity of repeated calls, aliasing probes",
     "Every public builder and solver on generated inputs: snapshots of mesh, coefficient variables, solution variable, BC arrays, cached boundary term and term objects before/after; repeated calls bit-identical; returned objects share no memory with inputs/mesh; a builder called again after an in-place edit of its input equals the builder on fresh objects (no stale memoisation); zero-containing coefficients for the means; time loop reusing terms equals loop rebuilding them.",
